@@ -505,3 +505,138 @@ Proof.
       * simpl. rewrite Hn, Hm, Hlen. reflexivity.
 Qed.
 End VarsPhase.
+
+(* ====================================================================== the shape of the table (no semantics) *)
+Record sinv (te : tenv) (ve : venv) (t : list rdesc) : Prop := {
+  si_ve : venv_ok te ve;
+  si_dom : forall x r, lookup ve x = Some r -> declared te x = true;
+  si_pres : forall x r, lookup ve x = Some r -> find_res t r O <> None;
+  si_names : forall r x, In r t -> var_name r = Some x -> declared te x = true
+}.
+
+Lemma vars_table ds : forall te te' ve t evs ve' is t', sinv te ve t ->
+  chk_vars te ds = Some te' -> gen_vars ve ds = (evs, ve') -> assign evs t = (is, t') ->
+  is = [] /\ exists ext, t' = t ++ ext /\ tvars ext = plain_of ds /\ sinv te' ve' t'.
+Proof.
+  induction ds as [|d tl IH]; intros te te' ve t evs ve' is t' Hi Hk Hg Ha; simpl in Hk, Hg.
+  - inv Hk. inv Hg. simpl in Ha. inv Ha. split; [reflexivity|]. exists []. rewrite app_nil_r. split; [reflexivity|]. split; [reflexivity|]. exact Hi.
+  - destruct (declared te (vname d)) eqn:Ed; [discriminate|].
+    set (r := match vorigin d with
+              | ONone => RVar (vty d) (vname d)
+              | OMeta a k => RVarMeta (vty d) (vname d) (res_acc ve a) k
+              | OBalance a s0 => RVarBal (vname d) (res_acc ve a) (res_asset ve s0)
+              end).
+    set (evs0 := match vorigin d with
+                 | ONone => []
+                 | OMeta a k => [EAlloc (res_acc ve a)]
+                 | OBalance a s0 => [EAlloc (res_acc ve a); EAlloc (res_asset ve s0)]
+                 end).
+    assert (var_name r = Some (vname d)) as Hr by (unfold r; destruct (vorigin d); reflexivity).
+    destruct (match vorigin d with ONone => true | OMeta a _ => chk_acc te a | OBalance a s0 => ty_eqb (vty d) TMonetary && chk_acc te a && chk_asset te s0 end) eqn:Ho; [|discriminate].
+    assert (exists rest, gen_vars (ve ++ [(vname d, r)]) tl = (rest, ve') /\ evs = evs0 ++ [EAlloc r] ++ rest) as [rest [Hg' He]].
+    { unfold r, evs0. destruct (vorigin d) as [|a k|a s0]; destruct (gen_vars _ tl) as [rest ve''] eqn:Eg; inv Hg; exists rest; split; reflexivity. }
+    subst evs. rewrite assign_app in Ha. destruct (assign evs0 t) as [i0 t1] eqn:E0. simpl in Ha.
+    assert (fst (intern t1 r) = fst (intern1 t1 r)) as Hint by (unfold r; destruct (vorigin d); reflexivity).
+    rewrite Hint in Ha. destruct (assign rest (fst (intern1 t1 r))) as [i2 t2] eqn:E2. injection Ha as His Ht2. subst is t'.
+    pose proof (si_ve _ _ _ Hi) as Ive.
+    assert (Hacc : forall a, chk_acc te a = true -> simple_alloc t (EAlloc (res_acc ve a))).
+    { intros [sa|y] Hc; simpl; [exact I|]. destruct (Ive _ _ (has_ty_lookup te _ _ Hc)) as [r0 [Hl Hn]]. unfold rvar. rewrite Hl.
+      pose proof (si_pres _ _ _ Hi _ _ Hl). destruct r0; simpl in Hn; try discriminate; assumption. }
+    assert (Hasset : forall a, chk_asset te a = true -> simple_alloc t (EAlloc (res_asset ve a))).
+    { intros [sa|y] Hc; simpl; [exact I|]. destruct (Ive _ _ (has_ty_lookup te _ _ Hc)) as [r0 [Hl Hn]]. unfold rvar. rewrite Hl.
+      pose proof (si_pres _ _ _ Hi _ _ Hl). destruct r0; simpl in Hn; try discriminate; assumption. }
+    assert (Forall (simple_alloc t) evs0) as Hs0.
+    { unfold evs0. destruct (vorigin d) as [|a k|a s0]; [constructor|constructor; [apply Hacc; assumption|constructor]|].
+      apply andb_prop in Ho. destruct Ho as [Ho Hs0]. apply andb_prop in Ho. destruct Ho as [_ Ha0].
+      constructor; [apply Hacc; assumption|constructor; [apply Hasset; assumption|constructor]]. }
+    destruct (assign_simple _ _ _ _ Hs0 E0) as [Hi0 [ext0 [Ht1 Hc0]]]. subst i0 t1.
+    destruct (const_facts ext0 Hc0) as [Tv0 [_ Cn0]].
+    assert (find_res (t ++ ext0) r O = None) as Hnew.
+    { apply (find_res_var_none _ _ (vname d) Hr). intros r' Hin Hq. apply in_app_or in Hin. destruct Hin as [Hin|Hin].
+      - pose proof (si_names _ _ _ Hi _ _ Hin Hq). congruence.
+      - apply (Cn0 _ _ Hin Hq). }
+    unfold intern1 in E2. rewrite Hnew in E2. simpl in E2.
+    assert (sinv (te ++ [(vname d, vty d)]) (ve ++ [(vname d, r)]) ((t ++ ext0) ++ [r])) as Hi1.
+    { constructor.
+      - intros y t0 Hl. rewrite lookup_app in Hl. rewrite lookup_app. destruct (lookup te y) as [t1|] eqn:E.
+        + inv Hl. destruct (Ive _ _ E) as [r0 [Hr0 Hn0]]. rewrite Hr0. exists r0. auto.
+        + simpl in Hl. destruct (String.eqb (vname d) y) eqn:Ex; [|discriminate]. apply String.eqb_eq in Ex. subst y.
+          destruct (lookup ve (vname d)) as [r0|] eqn:E1; [pose proof (si_dom _ _ _ Hi _ _ E1); congruence|]. simpl. rewrite String.eqb_refl. exists r. auto.
+      - intros y r0 Hl. rewrite declared_app. rewrite lookup_app in Hl. destruct (lookup ve y) as [r1|] eqn:E1.
+        + rewrite (si_dom _ _ _ Hi _ _ E1). reflexivity.
+        + simpl in Hl. destruct (String.eqb (vname d) y); [apply orb_true_r|discriminate].
+      - intros y r0 Hl. rewrite lookup_app in Hl. destruct (lookup ve y) as [r1|] eqn:E1.
+        + inv Hl. pose proof (si_pres _ _ _ Hi _ _ E1) as Hp. destruct (find_res t r0 O) as [i|] eqn:Ef; [|contradiction].
+          rewrite <- app_assoc, (find_res_app _ _ _ _ _ Ef). discriminate.
+        + simpl in Hl. destruct (String.eqb (vname d) y); [|discriminate]. inv Hl. rewrite (find_res_new _ _ _ Hnew). discriminate.
+      - intros r0 y Hin Hn. rewrite declared_app. apply in_app_or in Hin. destruct Hin as [Hin|[<-|[]]].
+        + apply in_app_or in Hin. destruct Hin as [Hin|Hin]; [rewrite (si_names _ _ _ Hi _ _ Hin Hn); reflexivity|exfalso; apply (Cn0 _ _ Hin Hn)].
+        + rewrite Hr in Hn. inv Hn. rewrite String.eqb_refl. apply orb_true_r. }
+    destruct (IH _ _ _ _ _ _ _ _ Hi1 Hk Hg' E2) as [Hi2 [extr [Her [Htv Hsi]]]]. subst i2. split; [reflexivity|].
+    exists (ext0 ++ [r] ++ extr). split; [rewrite Her, <- !app_assoc; reflexivity|]. split; [|assumption].
+    rewrite !tvars_app, Tv0, Htv. unfold r. simpl. destruct (vorigin d); reflexivity.
+Qed.
+
+(* ParseVariablesJSON on the table = on the declarations *)
+Definition chk1 (given : list (string * value)) (xt : string * ty) : bool :=
+  match lookup given (fst xt) with Some v => ty_eqb (ty_of v) (snd xt) && validate_value v | None => false end.
+
+Lemma vm_set_vars_tvars tF given t : vm_set_vars (map (concretize tF) t) given = forallb (chk1 given) (tvars t).
+Proof.
+  induction t as [|r tl IH]; [reflexivity|]. destruct r; simpl; try assumption. unfold chk1 at 1. simpl.
+  destruct (lookup given x); [|reflexivity]. rewrite IH. destruct (ty_eqb _ _ && _); reflexivity.
+Qed.
+Lemma set_vars_plain_of given ds : set_vars ds given = forallb (chk1 given) (plain_of ds).
+Proof.
+  induction ds as [|d tl IH]; [reflexivity|]. simpl. unfold plain_of. simpl. destruct (vorigin d); simpl; try assumption.
+  unfold chk1 at 1. simpl. destruct (lookup given (vname d)); [|reflexivity]. fold (plain_of tl). rewrite <- IH.
+  destruct (ty_eqb _ _ && _); reflexivity.
+Qed.
+Lemma vm_plain_names_tvars tF t : vm_plain_names (map (concretize tF) t) = map fst (tvars t).
+Proof. induction t as [|r tl IH]; [reflexivity|]. destruct r; simpl; try assumption. f_equal. assumption. Qed.
+Lemma plain_names_plain_of ds : plain_names ds = map fst (plain_of ds).
+Proof. induction ds as [|d tl IH]; [reflexivity|]. unfold plain_names, plain_of in *. simpl. destruct (vorigin d); simpl; try assumption. f_equal. assumption. Qed.
+
+(* allocating resources whose variables are present adds no variable entry *)
+Lemma intern1_novar r t ext : (find_res t r O <> None \/ var_name r = None) -> fst (intern1 t r) = t ++ ext -> tvars ext = [].
+Proof.
+  intros Hc He. unfold intern1 in He. destruct (find_res t r O) eqn:Ef; simpl in He.
+  - assert (ext = []) by (apply (app_inv_head t); rewrite app_nil_r; symmetry; assumption). subst. reflexivity.
+  - assert (ext = [r]) by (apply (app_inv_head t); symmetry; assumption). subst. destruct Hc as [Hc|Hc]; [contradiction|].
+    destruct r; simpl in Hc; try discriminate; reflexivity.
+Qed.
+
+Lemma intern_novar : forall r t ext, rpresent t r -> fst (intern t r) = t ++ ext -> tvars ext = [].
+Proof.
+  induction r as [c|ty x|ty x acc IHa k|x acc IHa asset IHs|ra IH n]; intros t ext Hp He; simpl in He, Hp.
+  - apply (intern1_novar (RConst c) t ext (or_intror eq_refl) He).
+  - apply (intern1_novar _ _ _ (or_introl Hp) He).
+  - apply (intern1_novar _ _ _ (or_introl Hp) He).
+  - apply (intern1_novar _ _ _ (or_introl Hp) He).
+  - destruct (intern_ext ra t) as [e1 He1]. rewrite He1 in He. unfold intern1 in He.
+    destruct (find_res (t ++ e1) (RMon ra n) O); simpl in He.
+    + assert (ext = e1) by (apply (app_inv_head t); symmetry; assumption). subst. apply (IH t e1 Hp He1).
+    + rewrite <- app_assoc in He. assert (ext = e1 ++ [RMon ra n]) by (apply (app_inv_head t); symmetry; assumption). subst.
+      rewrite tvars_app, (IH t e1 Hp He1). reflexivity.
+Qed.
+
+Lemma assign_novar evs : forall t is t', assign evs t = (is, t') ->
+  Forall (fun v => match v with EAlloc r | EIns (IApush r) => rpresent t r | _ => True end) evs ->
+  exists ext, t' = t ++ ext /\ tvars ext = [].
+Proof.
+  induction evs as [|v tl IH]; intros t is t' H Hf.
+  - simpl in H. inv H. exists []. rewrite app_nil_r. auto.
+  - pose proof (Forall_inv Hf) as Hh. pose proof (Forall_inv_tail Hf) as Ht. clear Hf.
+    assert (Hstep : forall r is0, rpresent t r -> assign tl (fst (intern t r)) = (is0, t') -> exists ext, t' = t ++ ext /\ tvars ext = []).
+    { intros r is0 Hp Ha. destruct (intern_ext r t) as [e1 H1]. rewrite H1 in Ha.
+      assert (Forall (fun v => match v with EAlloc r | EIns (IApush r) => rpresent (t ++ e1) r | _ => True end) tl) as Hf'.
+      { eapply Forall_impl; [|exact Ht]. intros [r0|[]]; try (intros; exact I); apply rpresent_app. }
+      destruct (IH _ _ _ Ha Hf') as [e2 [He2 Hv2]]. exists (e1 ++ e2). split; [rewrite He2, app_assoc; reflexivity|].
+      rewrite tvars_app, (intern_novar r t e1 Hp H1), Hv2. reflexivity. }
+    destruct v as [r|i].
+    + simpl in H. apply (Hstep r is Hh H).
+    + assert (no_operand i \/ exists o, i = IApush o) as [Hn|[o ->]] by (destruct i; simpl; eauto).
+      * rewrite (assign_no_operand i tl t Hn) in H. destruct (assign tl t) as [is0 t2] eqn:E. inv H. apply (IH _ _ _ E Ht).
+      * simpl in H. destruct (intern t o) as [t1 a] eqn:Ei. destruct (assign tl t1) as [is0 t2] eqn:E. inv H.
+        apply (Hstep o is0 Hh). rewrite Ei. exact E.
+Qed.
